@@ -1,5 +1,6 @@
 SPECIFICATION Spec
 CONSTANTS
+  Isas = {"x64"}
   MaxBlocks = 2
   Templates = {"o23", "jmp", "ret"}
   Layouts = {"one", "split1", "tail"}
@@ -7,7 +8,7 @@ CONSTANTS
   Names = {"fa", "fab", "xfa"}
   BothOrders = FALSE
   EntModes = {"first"}
-  EpChoices = {0, 1}
+  EpChoices = {0, 1, 2}
   CfgModes = {"full"}
   TgtChoices = {0, 1}
   ScopeKinds = {"allfuncs", "allblocks"}
